@@ -677,13 +677,13 @@ class C32(Check):
 
     # ---- replay ----------------------------------------------------------
     def replay(self, case):
+        if case["layer"] == "isvalid":
+            return "is_valid_ip(%r) -> %r ; reference class %r" % (
+                case["s"], self.exec_isvalid(case["s"]), ip_class(case["s"]))
         trusted, variant = TRUSTED[case["t"]], VARIANTS[case["v"]]
         sockip, orig = variant[3], variant[0] or "http"
         out = ["server: xheaders=True trusted_downstream=%r protocol=%r socket=%r"
                % (list(trusted), variant[0], variant[2])]
-        if case["layer"] == "isvalid":
-            return "is_valid_ip(%r) -> %r ; reference class %r" % (
-                case["s"], self.exec_isvalid(case["s"]), ip_class(case["s"]))
         if case["layer"] == "single":
             xri, xff, xs, xfp = (_t(case[k]) for k in ("xri", "xff", "xs", "xfp"))
             ips, icls, _ = ref_ip(xri, xff, trusted, sockip)
